@@ -538,6 +538,8 @@ def run_breadlog(root, check=False, plan=None, knobs=None, binary=None):
         "SIM_TRACE": trace_path,
         "ASYNC_STD_THREAD_COUNT": str(knobs.get("threads", 2)),
     }
+    if knobs.get("jitter_us"):
+        env["SIM_JITTER_US"] = str(int(knobs["jitter_us"]))
     if knobs.get("dt_unknown"):
         env["SIM_DT_UNKNOWN"] = "1"
     if knobs.get("clock") is not None:
